@@ -25,7 +25,7 @@ ASSUMPTIONS = [
 ]
 GATES = {
     "S2_observed": 1, "S3_observed": 1, "S4_observed": 1, "coarse_invalid_pixel": 1, "size_not_divisible": 1, "step_after_multiscale": 1,
-    "multiband": 1, "masks": 1, "fine_pixels_judged": 5000, "validation_before_multiscale": 1, "right_side_ranges_judged": 1,
+    "multiband": 1, "masks": 1, "fine_pixels_judged": 5000, "validation_before_multiscale": 1, "right_side_ranges_judged": 1, "window_size_1": 1,
 }
 INVALID = 0b1111000011
 
@@ -89,7 +89,7 @@ def run_case(case, ctx):
     left = gen.make_dataset(l, (a, b), lm, bands=bands)
     right = gen.make_dataset(r, None, rm, bands=bands)
     method = ["sad", "census", "zncc"][int(rng.integers(0, 3))]
-    w = int(rng.choice([3, 5]))
+    w = int(rng.choice([3, 5])) if method == "census" else int(rng.choice([1, 3, 5]))
     kinds = ["matching_cost"]
     pre = []
     if nb == 1 and rng.random() < 0.25:
@@ -167,6 +167,7 @@ def run_case(case, ctx):
         ctx.violation("image-size-per-scale", f"passes at {got_shapes}, expected {exp_shapes}", case, desc=desc)
         return
     ctx.gate("size_not_divisible", int(rows % f != 0 or cols % f != 0))
+    ctx.gate("window_size_1", int(w == 1))
     ctx.gate("multiband", int(nb > 1))
     ctx.gate("masks", int(lmk != "none"))
     ctx.gate("validation_before_multiscale", int("validation" in mid))
